@@ -595,9 +595,20 @@ class Totality:
     def _root_fn(key):
         return re.sub(r"(::\{closure#\d+\})+$", "", key)
 
-    def _table_row(self, fn_key, kind, what):
+    _LOCAL_NAME = re.compile(r"\b[a-z_][a-z0-9_]*\b(?!\()")
+
+    @classmethod
+    def norm_what(cls, what):
+        """Discriminator with the names of local variables blanked: `Overflow(Add:total,count_ones())` and
+        `Overflow(Add:sum,count_ones())` are the same site.  Operators, callees (followed by `(`), constants and
+        const parameters (upper case) and literals are kept."""
+        return cls._LOCAL_NAME.sub("$", re.sub(r"~\d+$", "", what))
+
+    def _table_row(self, fn_key, kind, what, unique_norm=False):
         """Reviewed row for a site.  A row belongs to a function *and its closures*: moving a statement between a
-        function body and a closure inside it (iterator chain <-> loop) does not orphan the row."""
+        function body and a closure inside it (iterator chain <-> loop) does not orphan the row.  unique_norm: the
+        site is the only one of its kind in its function with this name-blanked discriminator, so a row that matches
+        up to the names of local variables (a rename) is this site's row, provided it is the only such row."""
         self._row_owner = fn_key
         root = self._root_fn(fn_key)
         owners = [fn_key] + [k for k in self.table if k != fn_key and self._root_fn(k) == root]
@@ -615,6 +626,13 @@ class Totality:
                         or (r.get("what_re") and re.fullmatch(r["what_re"], base)):
                     self._row_owner = owner
                     return r
+        if unique_norm and (kind.startswith("assert:") or kind == "diverge"):
+            nw = self.norm_what(what)
+            cands = [(owner, r) for owner in owners for r in (self.table.get(owner) or ())
+                     if r.get("kind", kind) == kind and r.get("what") and self.norm_what(r["what"]) == nw]
+            if len(cands) == 1:
+                self._row_owner = cands[0][0]
+                return cands[0][1]
         return None
 
     # ------------------------------------------------------------------
@@ -1084,6 +1102,7 @@ class Totality:
             return ai
 
         implicit_ok = self.implicit_scope(body)
+        pending = []
         for site in panics.local_sites(view):
             implicit = site.kind.startswith("assert:") or site.kind == "foreign"
             explicit_foreign = site.kind == "foreign" and site.callee in EXPLICIT_FOREIGN
@@ -1100,8 +1119,17 @@ class Totality:
                 self.stats["discharged"] += 1
                 self.discharge_log.append((key, cfg, site.kind, site.what, how))
                 continue
+            pending.append((site, a, st))
+        # undischarged sites: reviewed rows.  A row matches by its discriminator; when the site is the only
+        # undischarged one of its kind with that discriminator up to the names of local variables, a rename is tolerated
+        norm_counts = {}
+        for site, _a, _st in pending:
+            nk = (site.kind, self.norm_what(site.what))
+            norm_counts[nk] = norm_counts.get(nk, 0) + 1
+        for site, a, st in pending:
             what = site.what
-            row = self._table_row(key, site.kind, what)
+            row = self._table_row(key, site.kind, what,
+                                  unique_norm=norm_counts.get((site.kind, self.norm_what(what))) == 1)
             preds = []
             if row is not None and not self._row_ok(view, site.block, row):
                 self.row_failures.append((key, row.get("kind"), row.get("what"), site.where))
